@@ -61,14 +61,19 @@ QueueingRDMController::QueueingRDMController(
  * Shutdown
  */
 QueueingRDMController::~QueueingRDMController() {
-  // delete all outstanding requests
+  // The callbacks run below may call back into this object (queue another
+  // request, Resume(), ...). Make sure nothing is sent to the underlying
+  // controller from now on: TakeNextAction() does nothing while this is set.
+  m_rdm_request_pending = true;
+
+  // delete all outstanding requests, including any the callbacks add.
   while (!m_pending_requests.empty()) {
     outstanding_rdm_request outstanding_request = m_pending_requests.front();
+    m_pending_requests.pop();
     if (outstanding_request.on_complete) {
       RunRDMCallback(outstanding_request.on_complete, RDM_FAILED_TO_SEND);
     }
     delete outstanding_request.request;
-    m_pending_requests.pop();
   }
 }
 
